@@ -268,7 +268,7 @@ func init() {
 			Setup:       func(ctx *fw.Ctx) error { return refSelfTest(true) },
 			Gen: func(ctx *fw.Ctx) []fw.Case {
 				var cs []fw.Case
-				nh := 60
+				nh := 300
 				if !ctx.Quick {
 					nh = 3000
 				}
@@ -429,7 +429,7 @@ func init() {
 			Level: "exploration",
 			Rule:  "cases = (tree height 4..12, leaf width in {1,2,3,4,5,9,10,17,63,85,135,140}, leaf index, corruption in {none, leaf element, sibling, index bit, cap-index bit, selected cap entry, unselected cap entry, swapped left/right of one level, wrong cap slot}) executed through the repository's Merkle gadget (verif hook) on synthetic trees built with the reference PoseidonBN128; oracle is the iff: ACCEPT exactly when the reference fold of the (possibly corrupted) data, ordered by the (possibly corrupted) index bits, equals the cap entry the (possibly corrupted) cap bits select. Non-trivial = every case (both accept and reject expectations occur); distinct by case id.",
 			Assumptions: []string{"cap height is 4 (the gadget refuses anything else; C20 covers that)"},
-			MinEvents:   10000,
+			MinEvents:   2000,
 			Setup:       func(ctx *fw.Ctx) error { return refSelfTest(false) },
 			Gen: func(ctx *fw.Ctx) []fw.Case {
 				var cs []fw.Case
@@ -441,7 +441,7 @@ func init() {
 				corr := []string{"none", "leaf", "sibling", "indexbit", "capbit", "capsel", "capunsel", "swaplr", "wrongslot"}
 				for _, h := range hs {
 					for wi, w := range widths {
-						if ctx.Quick && (h+wi)%3 != 0 {
+						if ctx.Quick && (h+wi)%2 != 0 {
 							continue
 						}
 						if h >= 10 && w > 17 {
